@@ -154,7 +154,7 @@ Proof.
 Qed.
 
 Ltac it_step_tac a b :=
-  unfold a, lat_step, Nc, rr; cbv zeta; rewrite e2_const'; reflexivity.
+  unfold a, lat_step, Nc, rr; cbv zeta; rewrite e2_const'; sq_norm; reflexivity.
 
 Lemma it_step_1 x y z d : gen_lla_lat_it1 x y z d = lat_step (rr x y) (z / (1275627 / 200)) (gen_lla_lat_it0 x y z d).
 Proof. it_step_tac gen_lla_lat_it1 gen_lla_lat_it0. Qed.
@@ -170,7 +170,7 @@ Lemma it_step_6 x y z d : gen_lla_lat_it6 x y z d = lat_step (rr x y) (z / (1275
 Proof. it_step_tac gen_lla_lat_it6 gen_lla_lat_it5. Qed.
 
 Ltac alt_tac a :=
-  unfold a, alt_of, Nc, rr, wgs84_A; cbv zeta; rewrite e2_const'; reflexivity.
+  unfold a, alt_of, Nc, rr, wgs84_A; cbv zeta; rewrite e2_const'; sq_norm; reflexivity.
 Lemma alt_1 x y z d : gen_lla_alt_p1 x y z d = alt_of (rr x y) (gen_lla_lat_it1 x y z d) (gen_lla_lat_it0 x y z d).
 Proof. alt_tac gen_lla_alt_p1. Qed.
 Lemma alt_2 x y z d : gen_lla_alt_p2 x y z d = alt_of (rr x y) (gen_lla_lat_it2 x y z d) (gen_lla_lat_it1 x y z d).
